@@ -10,6 +10,7 @@ TIERS = {
 
 LEGACY = ("1A1T_1_B.cif",)               # quick: this base also with the legacy atom names
 ANON = ("1JJP.cif", "1E7K_1_C.cif")     # quick: these bases also with unresolvable residue names
+THIO = ("1E7K_1_C.cif",)                # quick: this base also with its uridines turned into 4-thiouridines
 
 
 def build_cases(t):
@@ -26,6 +27,8 @@ def build_cases(t):
             bases.append((name, ["anon", 0]))
         if name in LEGACY or t["jitter"]:
             bases.append((name, ["legacy", 0]))
+        if name in THIO or t["jitter"]:
+            bases.append((name, ["thio", 0]))
     cases = []
     for k, b in enumerate(beh):
         name, perturb = bases[k % len(bases)]
@@ -38,10 +41,17 @@ def build_cases(t):
             if op == "SwitchFormat":
                 fmt = ["obj", "pdb", "cif"][a]
         if not any(op == "Rotate" for op, _ in steps):
+            rec = 0
+            for op, a in steps:
+                if op == "ToggleRecords":
+                    rec = a
             for a, f in ((1, "pdb"), (2, "cif"), (0, "obj")):
                 if f != fmt:
                     steps.append(["SwitchFormat", a])
                     fmt = f
+                    if f != "obj":      # ... and each text format with and without the describing records
+                        rec = 1 - rec
+                        steps.append(["ToggleRecords", rec])
         cases.append({"id": f"p{k}-{name}" + (f"-{perturb[0]}" if perturb else ""), "base": name, "perturb": perturb,
                       "fmt0": b["fmt0"], "steps": steps})
     return cases, bases
